@@ -140,7 +140,7 @@ def main(pid, modname, tier, replay_path=None):
         seen_keys.add(key)
         res = concrete_run(pid, case, f['values'])
         ok_list = res.get('results', {}).get(f['label'])
-        if res.get('error') or res.get('vacuous') or ok_list is None or all(ok_list):
+        if ok_list is None or all(ok_list) or (res.get('vacuous') and ok_list is None):
             nonrepro.append(dict(case=case, label=f['label'], values=f['values'], replay=res))
             continue
         if fid is not None and fid in known:
